@@ -167,6 +167,7 @@ def diversity_coef_sign(W, ci):
     Hneg : Nx1 np.ndarray
         diversity coefficient based on negative connections
     '''
+    W = np.asarray(W, dtype=float)  # the same network whatever the storage: arithmetic below must not be logical (bool) or wrap (small integers)
     n = len(W)  # number of nodes
 
     _, ci = np.unique(ci, return_inverse=True)
@@ -440,6 +441,7 @@ def flow_coef_bd(CIJ):
     total_flo : int
         number of paths that "flow" across the central node
     '''
+    CIJ = np.asarray(CIJ, dtype=float)  # the same network whatever the storage: arithmetic below must not be logical (bool) or wrap (small integers)
     N = len(CIJ)
 
     fc = np.zeros((N,))
@@ -496,6 +498,7 @@ def gateway_coef_sign(W, ci, centrality_type='degree'):
     Reference:
         Vargas ER, Wahl LM, Eur Phys J B (2014) 87:1-10
     '''
+    W = np.asarray(W, dtype=float)  # the same network whatever the storage: arithmetic below must not be logical (bool) or wrap (small integers)
     if centrality_type not in ('degree', 'betweenness'):
         raise BCTParamError("centrality_type must be either 'degree' "
             "or 'betweenness' ")
@@ -850,6 +853,7 @@ def participation_coef_sign(W, ci):
     Pneg : Nx1 np.ndarray
         participation coefficient from negative weights
     '''
+    W = np.asarray(W, dtype=float)  # the same network whatever the storage: arithmetic below must not be logical (bool) or wrap (small integers)
     _, ci = np.unique(ci, return_inverse=True)
     ci += 1
 
